@@ -19,7 +19,7 @@ Print Assumptions c02_marshal_fixpoint.
    ReadSession has further failure paths that the model does not have — validation of members outside the core flow
    language, and since goflow f4c75dd "error reading parent run from trigger" when the run summary stored in a
    flow_action trigger cannot be re-read; the latter is an assumption of this check (checks/C02.json), the former are
-   covered by the direct oracle (classes reread-fails:*). *)
+   covered by the direct oracle (the reread-fails classes). *)
 Theorem c02_reread_succeeds_iff : forall lv,
   (exists lv', restore (persist lv) = Restored lv') <-> parents_precede (s_runs (lv_core lv)).
 Proof. exact reread_succeeds_iff. Qed.
